@@ -12,9 +12,11 @@ package main
 //     equal-length lists are compared element-wise over the full range.
 
 import (
+	"fmt"
 	"go/ast"
 	"go/token"
 	"go/types"
+	"math"
 )
 
 func init() { register("C15", false, checkC15) }
@@ -30,7 +32,7 @@ type c15 struct {
 func checkC15(c *Ctx) {
 	c.Rule("C15.R1", "Similar, evaluated in both directions on model pairs for each of the eight types: true for a perturbed copy, also with members reordered and closed rings rotated; false when a vertex is displaced, a member or vertex is added or removed, a line is reversed, or a duplicated member stands against a different one; and always symmetric")
 	c.Rule("C15.R2", "Similar is false for every ordered pair of different geometry types (model evaluation)")
-	c.Rule("C15.R3", "the scalar tolerance test is |a−b| < tol: strict, and bounding both signs of the difference")
+	c.Rule("C15.R3", "model evaluation of the scalar tolerance test the Similar methods reach (found by behaviour among the helpers of that signature) on symbolic arguments under eleven separating valuations: |a−b| < tol, strict (a difference of exactly the tolerance and a zero tolerance on equal values are rejected) and bounding both signs of the difference")
 	pk := c.P.Pkg("geom")
 	a := &c15{c: c, info: pk.TypesInfo, summary: map[string]int{}}
 	c15model(c, "C15.R1", "C15.R2", "C15.R3")
@@ -40,15 +42,124 @@ func checkC15(c *Ctx) {
 	c.Floor("C15.R3", 1)
 }
 
-// scalarOnly: the arithmetic of the tolerance test itself (the model gives it its meaning and
-// cannot judge it): |a−b| < tol, written with math.Abs or as the conjunction of the two
-// one-sided tests.
+// scalarOnly (C15.R3): the arithmetic of the tolerance test itself (the model gives the test its
+// meaning and cannot judge it).  The tolerance tests are found by behaviour among the helpers of
+// signature (float64, float64, float64) bool that the Similar methods reach (c15toleranceTests);
+// each is evaluated on symbolic arguments under valuations that separate |a − b| < tol from its
+// neighbours: a difference of exactly the tolerance (either sign), a tolerance of zero on equal
+// values, far apart in either direction, near in either direction.
 func (a *c15) scalarOnly() {
 	c := a.c
+	tests := c15toleranceTests(c)
+	for _, fn := range tests {
+		fd := c.P.Decl(fn)
+		name := c.P.FuncName(fn)
+		type tc struct {
+			a, b, e float64
+			want    bool
+			kind    string
+		}
+		bad, unk := "", ""
+		for _, t := range []tc{
+			{1, 1.5, 1, true, ""}, {1.5, 1, 1, true, ""}, {-2, -2.25, 0.5, true, ""}, {10, 10, 0.001, true, ""},
+			{1, 3, 1, false, "onesided"}, {3, 1, 1, false, "onesided"}, {-2, 2, 0.5, false, "onesided"}, {2, -2, 0.5, false, "onesided"},
+			{1, 2, 1, false, "nonstrict"}, {2, 1, 1, false, "nonstrict"}, {5, 5, 0, false, "nonstrict"},
+		} {
+			got, why := c15evalScalar(c, fn, t.a, t.b, t.e)
+			if why != "" {
+				unk = "the tolerance test is not interpretable: " + why
+				break
+			}
+			if got == t.want {
+				continue
+			}
+			switch {
+			case t.kind == "onesided":
+				bad = fmt.Sprintf("only one sign of the difference is bounded: %s(%v, %v, %v) is true although the values are %v apart, so Similar is not symmetric", fn.Name(), t.a, t.b, t.e, math.Abs(t.a-t.b))
+			case t.kind == "nonstrict":
+				bad = fmt.Sprintf("the tolerance test is not strict: %s(%v, %v, %v) is true (|a−b| ≤ tol): a vertex displaced by exactly the tolerance is accepted", fn.Name(), t.a, t.b, t.e)
+			default:
+				bad = fmt.Sprintf("%s(%v, %v, %v) is false although the values are within the tolerance", fn.Name(), t.a, t.b, t.e)
+			}
+			break
+		}
+		switch {
+		case bad != "":
+			c.Bad("C15.R3", name, fd.Pos(), "%s", bad)
+		case unk != "":
+			c.Unk("C15.R3", name, fd.Pos(), "%s", unk)
+		default:
+			c.OK("C15.R3", name, fd.Pos(), "|a−b| < tol on eleven separating valuations (strict, both signs of the difference bounded)")
+		}
+	}
+	if len(tests) == 0 {
+		c.Unk("C15.R3", "geom#tolerance-test", token.NoPos, "no (float64, float64, float64) bool helper reached from the Similar methods behaves like a tolerance test (true for near values in both directions, false for far ones in at least one)")
+	}
+}
+
+// c15evalScalar evaluates a (float64, float64, float64) bool helper at one valuation.
+func c15evalScalar(c *Ctx, fn *types.Func, a, b, e float64) (bool, string) {
+	symResetEval()
+	it := &oInterp{p: c.P, maxDepth: 16, symbolic: true}
+	it.valuation = map[string]float64{"ta": a, "tb": b, "te": e}
+	c.Evals(1)
+	res, why := it.Call(fn, nil, []oval{oSym{polyVar("ta")}, oSym{polyVar("tb")}, oSym{polyVar("te")}}, 0)
+	if why != "" {
+		return false, why
+	}
+	if len(res) != 1 {
+		return false, "result count"
+	}
+	r, ok := res[0].(oBool)
+	if !ok {
+		return false, "the result is " + showVal(res[0])
+	}
+	return bool(r), ""
+}
+
+// c15toleranceTests: the helpers of signature (float64, float64, float64) bool in package geom
+// that a method named Similar reaches through calls, and that answer like a tolerance test: true
+// for near values in both directions, false for far values in at least one direction (a one-sided
+// or non-strict test is still a tolerance test — a broken one; a range test is not).
+func c15toleranceTests(c *Ctx) []*types.Func {
 	pk := c.P.Pkg("geom")
-	n := 0
+	if pk == nil {
+		return nil
+	}
+	info := pk.TypesInfo
+	reached := map[*types.Func]bool{}
+	var work []*types.Func
 	for _, fn := range c.P.RepoFuncs() {
-		if c.P.DeclPkg(fn) != pk {
+		if c.P.DeclPkg(fn) == pk && fn.Name() == "Similar" && fn.Type().(*types.Signature).Recv() != nil {
+			reached[fn] = true
+			work = append(work, fn)
+		}
+	}
+	for len(work) > 0 {
+		fn := work[0]
+		work = work[1:]
+		fd := c.P.Decl(fn)
+		if fd == nil || fd.Body == nil {
+			continue
+		}
+		ast.Inspect(fd.Body, func(n ast.Node) bool {
+			var g *types.Func
+			switch x := n.(type) {
+			case *ast.CallExpr:
+				g = callee(info, x)
+			case *ast.Ident:
+				g, _ = info.Uses[x].(*types.Func) // a helper passed as a value
+			}
+			if g != nil && !reached[g] && c.P.DeclPkg(g) == pk {
+				reached[g] = true
+				work = append(work, g)
+			}
+			return true
+		})
+	}
+	var out []*types.Func
+	for _, fn := range c.P.RepoFuncs() {
+		if !reached[fn] {
 			continue
 		}
 		sig := fn.Type().(*types.Signature)
@@ -61,151 +172,20 @@ func (a *c15) scalarOnly() {
 		if rb, ok := sig.Results().At(0).Type().Underlying().(*types.Basic); !ok || rb.Kind() != types.Bool {
 			continue
 		}
-		n++
-		fd := c.P.Decl(fn)
-		name := c.P.FuncName(fn)
-		switch a.toleranceShape(fd) {
-		case "ok":
-			c.OK("C15.R3", name, fd.Pos(), "|a−b| < tol (strict, both signs of the difference bounded)")
-		case "nonstrict":
-			c.Bad("C15.R3", name, fd.Pos(), "the tolerance test is not strict (|a−b| ≤ tol): a vertex displaced by exactly the tolerance is accepted, and with tolerance 0 everything equal compares similar only by accident of ≤")
-		case "onesided":
-			c.Bad("C15.R3", name, fd.Pos(), "only one sign of the difference is bounded: a−b < tol holds for every b far above a, so Similar is not symmetric")
-		default:
-			c.Unk("C15.R3", name, fd.Pos(), "the tolerance test is not of the form math.Abs(a-b) < tol or (a-b < tol && b-a < tol)")
+		n1, w1 := c15evalScalar(c, fn, 1, 1.25, 1)
+		n2, w2 := c15evalScalar(c, fn, 1.25, 1, 1)
+		f1, w3 := c15evalScalar(c, fn, 1, 5, 1)
+		f2, w4 := c15evalScalar(c, fn, 5, 1, 1)
+		if w1+w2+w3+w4 != "" {
+			// not interpretable: kept, so that the rule reports it rather than passing it over
+			out = append(out, fn)
+			continue
+		}
+		if n1 && n2 && (!f1 || !f2) {
+			out = append(out, fn)
 		}
 	}
-	if n == 0 {
-		c.Unk("C15.R3", "geom#tolerance-test", token.NoPos, "no (float64, float64, float64) bool helper found")
-	}
-}
-
-// toleranceShape classifies the body of a (a, b, tol) bool function.
-func (a *c15) toleranceShape(fd *ast.FuncDecl) string {
-	ps := paramVars(a.info, fd.Type)
-	if len(ps) != 3 || ps[0] == nil || ps[1] == nil || ps[2] == nil {
-		return ""
-	}
-	sc := newFnScope(a.info, fd.Body)
-	var ret *ast.ReturnStmt
-	for _, st := range fd.Body.List {
-		switch x := st.(type) {
-		case *ast.ReturnStmt:
-			ret = x
-		case *ast.AssignStmt, *ast.DeclStmt:
-		default:
-			return ""
-		}
-	}
-	if ret == nil || len(ret.Results) != 1 {
-		return ""
-	}
-	// diff(e): +1 for a-b, -1 for b-a, 0 otherwise; through single-definition locals and unary minus
-	var diff func(e ast.Expr, depth int) int
-	diff = func(e ast.Expr, depth int) int {
-		e = unparen(e)
-		if depth > 4 {
-			return 0
-		}
-		switch x := e.(type) {
-		case *ast.BinaryExpr:
-			if x.Op == token.SUB {
-				l, r := objOf(a.info, x.X), objOf(a.info, x.Y)
-				if l == ps[0] && r == ps[1] {
-					return 1
-				}
-				if l == ps[1] && r == ps[0] {
-					return -1
-				}
-			}
-		case *ast.UnaryExpr:
-			if x.Op == token.SUB {
-				return -diff(x.X, depth+1)
-			}
-		case *ast.Ident:
-			if o := objOf(a.info, x); o != nil {
-				if d := sc.singleDef(o); d != nil {
-					return diff(d, depth+1)
-				}
-			}
-		}
-		return 0
-	}
-	// atom: (sign bounded, strict) for `D < tol`, `tol > D`, with D a difference or math.Abs(difference)
-	type atom struct {
-		sign   int // +1, -1, 2 = absolute value
-		strict bool
-	}
-	parse := func(e ast.Expr) (atom, bool) {
-		b, ok := unparen(e).(*ast.BinaryExpr)
-		if !ok {
-			return atom{}, false
-		}
-		l, r := b.X, b.Y
-		strict := false
-		switch b.Op {
-		case token.LSS:
-			strict = true
-		case token.LEQ:
-		case token.GTR:
-			l, r, strict = r, l, true
-		case token.GEQ:
-			l, r = r, l
-		default:
-			return atom{}, false
-		}
-		if objOf(a.info, r) != ps[2] {
-			return atom{}, false
-		}
-		if call, ok := unparen(l).(*ast.CallExpr); ok && len(call.Args) == 1 && isFuncIn(callee(a.info, call), "math", "Abs") {
-			if diff(call.Args[0], 0) != 0 {
-				return atom{2, strict}, true
-			}
-			return atom{}, false
-		}
-		if d := diff(l, 0); d != 0 {
-			return atom{d, strict}, true
-		}
-		return atom{}, false
-	}
-	var atoms []atom
-	var split func(e ast.Expr) bool
-	split = func(e ast.Expr) bool {
-		e = unparen(e)
-		if b, ok := e.(*ast.BinaryExpr); ok && b.Op == token.LAND {
-			return split(b.X) && split(b.Y)
-		}
-		at, ok := parse(e)
-		if !ok {
-			return false
-		}
-		atoms = append(atoms, at)
-		return true
-	}
-	if !split(ret.Results[0]) {
-		return ""
-	}
-	pos, neg, strict := false, false, true
-	for _, at := range atoms {
-		switch at.sign {
-		case 2:
-			pos, neg = true, true
-		case 1:
-			pos = true
-		case -1:
-			neg = true
-		}
-		if !at.strict {
-			strict = false
-		}
-	}
-	switch {
-	case !(pos && neg):
-		return "onesided"
-	case !strict:
-		return "nonstrict"
-	}
-	return "ok"
+	return out
 }
 
 type c15env struct {
